@@ -1,15 +1,15 @@
 CONSTANTS
   HashMode = "real"
-  Bug = "NaNIdentity"
-  Sweeps = {"small"}
+  Bug = "ClassMemo"
+  Sweeps = {"hsmall"}
   PairDepth = 2
   NearDepth = 2
   DeepDepth = 1
-  HierDepth = 2
+  HierDepth = 3
   XDepth = 1
   EmitCases = FALSE
 INIT Init
 NEXT Next
-INVARIANT EqIsPyEq
+INVARIANT DictFindsEqual
 
 CHECK_DEADLOCK FALSE
